@@ -23,7 +23,7 @@ type Plan = map[string]map[string][]int32
 // RealTopics are the names of the existing topics; GhostTopic is a topic that
 // members may subscribe to / claim but that does not exist (no metadata, so
 // the leader never has a partition count for it).
-var RealTopics = []string{"ta", "tb", "tc", "td"}
+var RealTopics = []string{"ta", "tb", "tc", "td", "te"}
 
 const (
 	GhostTopic       = "tz"
